@@ -201,16 +201,17 @@ CHECKS['C08'] = e1_check('C08', 'Every crash image must open and be readable; fo
                          'it must open and converge to the contents of the uninterrupted recovery; recover-close-open must not change contents.', 15000, 200000, {'crash_images_opened': 15000, 'second_level_images_opened': 200, 'idempotence_checks': 50})
 
 def tree_check(cid, text, extra_legs, counters):
-    legs = [{'flavour': 'prod', 'shards': 16}] + extra_legs
+    legs = [{'flavour': 'prod', 'shards': 16}, {'flavour': 'prod', 'shards': 16, 'args': ['--atom', 'smallex']}] + extra_legs
     return {
         'level': 'exploration',
         'rule': 'operation sequences (insert / upsert / update / remove / lookup / scan) against a real pager file through the verif facade: key orders ascending, descending, random, zigzag, duplicate-heavy; '
                 'key types BigUInt, BigInt, Int, Double, Text and composites; page sizes 4-64 KiB; min_keys 3/4/6; siblings 1/2/3; uniform cells of 8-120 bytes; 60-2500 (quick) / 12000 (thorough) operations. '
+                'Bounded-exhaustive stratum for cells of different sizes: every assignment of payload sizes {8, 180, 350, 1200} to 7 fresh keys (4^7) x 12 (quick) / 120 (thorough) key orders, every key looked up after every insert. '
                 'After every operation a lookup is compared with a BTreeMap model; every 4th/16th operation the full forward scan is compared and the page graph is walked (equal leaf depth, sibling chain = in-order leaves both ways, '
                 'child counts, cells inside the page and non-overlapping, overflow chains) and every page of the file is attributed to exactly one owner. Non-trivial = every sequence; distinct = hash of (configuration, seed).',
         'legs': {'quick': legs, 'thorough': legs},
         'min_evaluations': {'quick': 600, 'thorough': 9000},
-        'min_counters': {'quick': counters, 'thorough': counters},
+        'min_counters': {'quick': dict(counters, small_exhaustive_sequences=190000), 'thorough': dict(counters, small_exhaustive_sequences=1900000)},
         'assumptions': ['the facade wrappers (crate::verif::facade) call the private B+tree / pager entry points unchanged', 'clean stratum = uniform small cells and a cache that holds the tree; other shapes are replayed as witnesses'],
         'technique': 'model-based runtime monitor (BTreeMap oracle after every operation) plus structural invariant walk and page-ownership audit of the live page graph through an instrumentation facade',
         'level_text': text,
